@@ -1,7 +1,7 @@
 PROP = dict(
     model_args=[],
     trivial=lambda inp, out: False,
-    rule='positions: sampled positions of random playouts (all sizes, custom small reserves so that stone reserves run out while '
+    rule='CONCURRENT family: the positions of the run (mixed sizes) are handed to AllMoves from 6 goroutines at once, ~9 000 calls per quick run, every list judged by the same criteria; positions: sampled positions of random playouts (all sizes, custom small reserves so that stone reserves run out while '
          'capstones remain, opening plies always included) and constructed boards (stacks taller than the carry limit on edges and '
          'corners); per position the complete AllMoves list is compared as a set and in order, checked for duplicates and off-board '
          'endpoints, against the complete legal move set computed by the rules oracle (all placements, all slide compositions), and a '
